@@ -117,13 +117,14 @@ Record world := mkWorld {
   g_runs : list (ent * N * N);                      (* ghost: (system, Local, captured counter) logged by every body, in order *)
   g_oruns : list ent;                               (* ghost: one entry per run of the inner system of a `once` wrapper *)
   g_auto : list ent;                                (* ghost: entities for which an auto-despawn signal was ever prepared *)
+  g_sdrops : list ent;                              (* ghost: one entry per drop of a live system state (boxed callback) *)
   (* observation *)
   log : list ev;
 }.
 #[export] Instance eta_world : Settable _ := settable! mkWorld
   <alive; comps; storage; cbs; ereactors; dtrackers; dataents; xlocals; resvals; removed; removed_seq; generation; next_ent;
    sigs; next_sig; gc_chan; comp_tbl; desp_tbl; any_tbl; res_tbl; bc_tbl; removal_checkers; despawn_chan;
-   counter; buffer; ticket_ctr; tr_ev; tr_se; tr_er; tr_de; bound; tokens; spawned; g_prep; g_claim; g_runs; g_oruns; g_auto; log>.
+   counter; buffer; ticket_ctr; tr_ev; tr_se; tr_er; tr_de; bound; tokens; spawned; g_prep; g_claim; g_runs; g_oruns; g_auto; g_sdrops; log>.
 
 Definition FIRST_INTERNAL : N := 1000000.
 Definition PLACEHOLDER : N := 500000.
@@ -137,7 +138,7 @@ Definition init_world : world := {|
   comp_tbl := []; desp_tbl := []; any_tbl := []; res_tbl := []; bc_tbl := []; removal_checkers := []; despawn_chan := [];
   counter := 0; buffer := []; ticket_ctr := 0;
   tr_ev := empty_trk 0; tr_se := empty_trk 0; tr_er := empty_trk (0, 0, RIns UNIT_TY); tr_de := empty_trk (0, None);
-  bound := []; tokens := []; spawned := []; g_prep := []; g_claim := []; g_runs := []; g_oruns := []; g_auto := []; log := [] |}.
+  bound := []; tokens := []; spawned := []; g_prep := []; g_claim := []; g_runs := []; g_oruns := []; g_auto := []; g_sdrops := []; log := [] |}.
 
 Definition emit (e : ev) (w : world) : world := w <| log ::= fun l => l ++ [e] |>.
 Definition note_claim (k : N) (s : ent) (items : list pitem) (w : world) : world := w <| g_claim ::= fun l => l ++ [(k, s, items)] |>.
@@ -202,7 +203,7 @@ Fixpoint push_removed_all (cs : list N) (e : ent) (w : world) : world :=
 (* dropping a boxed callback drops what its closure captured (the harness canary logs it) *)
 Definition drop_callback (t : ent) (w : world) : world :=
   match alookup t (cbs w) with
-  | Some cb => let w := w <| cbs := aremove t (cbs w) |> in if cb_live cb then emit (EvDropSys t) w else w
+  | Some cb => let w := w <| cbs := aremove t (cbs w) |> in if cb_live cb then emit (EvDropSys t) (w <| g_sdrops ::= cons t |>) else w
   | None => w
   end.
 
